@@ -18,12 +18,17 @@ UNSUBK = ("cunsub", "sunsub")
 
 
 # ------------------------------------------------------------------------------------------ scenarios
-def actor(aid, kind, ch="", p=0, j=0, fail=""):
-    return {"id": aid, "kind": kind, "ch": ch, "p": p, "j": j, "fail": fail}
+def actor(aid, kind, ch="", p=0, j=0, fail="", m=0):
+    a = {"id": aid, "kind": kind, "ch": ch, "p": p, "j": j, "fail": fail}
+    if m:
+        a["m"] = 1
+    return a
 
 
-def op(actors, chans, sched, connect=None):
+def op(actors, chans, sched, connect=None, obs=0):
     d = {"actors": actors, "chans": chans, "sched": sched}
+    if obs:
+        d["obs"] = 1
     if connect:
         d["connect"] = connect
     return "sched " + json.dumps(d, separators=(",", ":"))
@@ -35,6 +40,11 @@ def parse_op(line):
 
 def is_slow(line):
     return '"T"' in line
+
+
+def outside_model(spec):
+    """connect-time subscriptions, map client presence and the presence tick are not in the Lean LTS: oracle only"""
+    return bool(spec.get("connect")) or any(a.get("m") or a["kind"] == "tick" for a in spec["actors"])
 
 
 def rand_sub(rng, aid, ch, pfail=0.15):
@@ -86,7 +96,31 @@ def gen_fast(rng):
             sched.append(rng.randint(0, 4))
         else:
             sched.append(rng.choice(["H", "R"]))
-    return op(acts, chans, sched)
+    # observer connections (JSON / Protobuf x bidirectional / unidirectional, join/leave pushes) on every channel
+    return op(acts, chans, sched, obs=1 if rng.random() < 0.4 else 0)
+
+
+def gen_mappres(rng):
+    """Client subscribe with MapClientPresenceChannel (+ node presence sometimes), the periodic presence tick as an
+    actor (its refresh parks inside MapBroker.Publish), unsubscribe and close racing it.  Oracle only."""
+    acts = [actor("A", "csub", "a", rng.randint(0, 1), rng.randint(0, 1), m=1), actor("T", "tick"),
+            actor("U", rng.choice(UNSUBK), "a")]
+    if rng.random() < 0.8:
+        acts.append(actor("C", "close"))
+    if rng.random() < 0.3:
+        acts.append(actor("T2", "tick"))
+    ids = [a["id"] for a in acts]
+    k = rng.random()
+    if k < 0.6:
+        # subscribe completely, let the tick reach its map refresh, unsubscribe in full, then the rest
+        sched = ["@A"] * 8 + ["@T"] * rng.choice([1, 1, 2]) + ["@U"] * 8
+    elif k < 0.8:
+        sched = ["@A"] * rng.randint(2, 8) + ["@T"]
+    else:
+        sched = []
+    for _ in range(rng.choice([0, 4, 8, 14])):
+        sched.append("@" + rng.choice(ids + ["x1"]))
+    return op(acts, ["a", "b"], sched, obs=1 if rng.random() < 0.2 else 0)
 
 
 def gen_connect(rng):
@@ -212,7 +246,20 @@ def parse_final(ev, chans):
     for t in right.split():
         k, v = t.split("=", 1)
         f[k] = v
-    f["recv"] = {x.split(":")[0]: int(x.split(":")[1]) for x in f["recv"].split(",") if x}
+    # recv=<ch>:<min>:<max> over the marker publications (each marker must arrive exactly once, decodable)
+    f["recv"] = {x.split(":")[0]: (int(x.split(":")[1]), int(x.split(":")[2])) for x in f["recv"].split(",") if x}
+    f["mappres"] = {x.split(":")[0]: int(x.split(":")[1]) for x in (f.get("mappres") or "").split(",") if x}
+    raw_orecv, raw_ojl = f.get("orecv", "-"), f.get("ojl", "-")
+    f["orecv"] = {}
+    for x in raw_orecv.split(","):
+        if x and x != "-":
+            k, sub, lo, hi = x.split(":")
+            f["orecv"][k] = (int(sub), int(lo), int(hi))
+    f["ojl"] = {}
+    for x in raw_ojl.split(","):
+        if x and x != "-":
+            k, seq = x.split(":")
+            f["ojl"][k] = "" if seq == "-" else seq
     f["reported"] = [x for x in f["reported"].split(",") if x]
     f["onunsub"] = {x.split(":")[0]: int(x.split(":")[1]) for x in f["onunsub"].split(",") if x}
     return f
@@ -220,17 +267,18 @@ def parse_final(ev, chans):
 
 # ------------------------------------------------------------------------------------------ oracles
 def oracle_c04(case):
-    """receives a new publication iff it reports itself subscribed, at most once; every reported
-    channel has exactly one routing entry (and there is no routing entry without a reported channel)."""
+    """receives a new publication iff it reports itself subscribed, at most once (every marker publication, decoded
+    the way a client of that transport decodes it); every reported channel has exactly one routing entry (and
+    there is no routing entry without a reported channel).  The same for every observer connection."""
     f = case.final
     for ch in case.spec["chans"]:
         rep = ch in f["reported"]
-        n = f["recv"].get(ch, 0)
-        if n > 1:
-            return f"publication delivered {n} times"
-        if rep and n == 0:
+        lo, hi = f["recv"].get(ch, (0, 0))
+        if hi > 1:
+            return f"publication delivered {hi} times"
+        if rep and lo == 0:
             return "reports subscribed but does not receive the publication"
-        if not rep and n > 0:
+        if not rep and hi > 0:
             return "receives the publication although it does not report the channel as subscribed"
         hub = f["ch"][ch]["hub"]
         if rep and hub == "h-":
@@ -239,6 +287,13 @@ def oracle_c04(case):
             return "routing entry without a reported subscription"
     if int(f["numsubs"]) != len(f["reported"]):
         return "number of routing entries differs from the number of reported channels"
+    for k, (sub, lo, hi) in f["orecv"].items():
+        if hi > 1:
+            return "publication delivered more than once to another subscribed connection"
+        if sub and lo == 0:
+            return "another connection on the channel reports subscribed but does not receive the publication (in a form it can decode)"
+        if not sub and hi > 0:
+            return "another connection receives the publication although it does not report the channel as subscribed"
     return None
 
 
@@ -272,6 +327,8 @@ def oracle_c05(case):
         return "subscription state survives the connection"
     if int(f["sessions"]) != 0 or f["keyed"] != "false":
         return "session or keyed registration survives the connection"
+    if any(n for n in f["mappres"].values()):
+        return "map presence entry survives the connection"
     return None
 
 
@@ -347,6 +404,16 @@ def oracle_c07(case):
         # (OnUnsubscribe is installed by the OnConnect handler: not a reliable count while connecting)
         if subs and not case.spec.get("connect") and all(a["j"] for a in subs) and nl != f["onunsub"].get(ch, 0):
             return "number of leaves differs from the number of ended established subscriptions"
+    # what observers with join/leave pushes decode must be what was published, in that order
+    for k, seq in f["ojl"].items():
+        ch = k.split(".", 1)[1]
+        pub = "".join(x[0] for x in f["log"] if x[1:] == ch)
+        if seq != pub:
+            if seq.count("J") < pub.count("J"):
+                return "an observer did not receive a join that was published (in a form it can decode)"
+            if seq.count("L") < pub.count("L"):
+                return "an observer did not receive a leave that was published (in a form it can decode)"
+            return "an observer received join/leave pushes that differ from what was published"
     att = getattr(case, "attributed", None)
     if att:
         seenj, seenl = set(), set()
@@ -392,6 +459,15 @@ def signature(prop, case, msg):
     sig = {"oracle": msg, "timeout": tmo}
     if tmo:
         sig["stalled_subscribe_resumed"] = resumed_after_timeout(case)
+    if msg.startswith("map presence entry survives"):
+        # whose MapBroker.Publish created the surviving entry: the last one on a channel that still has an entry
+        kinds = {a["id"]: a["kind"] for a in case.spec["actors"]}
+        last = None
+        for e in case.events:
+            w = e.split()
+            if w[0] == "pass" and w[2] == "mappub" and case.final["mappres"].get(w[3], 0) > 0:
+                last = kinds.get(w[1], "close" if w[1].startswith("x") else "?")
+        sig["late_add_by"] = last
     return sig
 
 
@@ -477,13 +553,15 @@ def go_batches(ctx, binary, fast, slow, procs=4):
 
 
 def lean_lines(cases):
-    return ["trace " + ",".join(c.spec["chans"]) + " " + c.raw for c in cases]
+    return [("trace+obs " if c.spec.get("obs") else "trace ") + ",".join(c.spec["chans"]) + " " + c.raw for c in cases]
 
 
 def run(ctx, prop):
     oracle = ORACLES[prop]
     ctx.rule = ("schedules over actors {client subscribe, server-side subscribe, client unsubscribe, server-side "
-                "unsubscribe, close} on 1-2 channels of one connection with presence / join-leave options and injected "
+                "unsubscribe, close, connect with connect-time subscriptions, presence tick} on 1-2 channels of one connection "
+                "with presence / join-leave / map-client-presence options, optionally four observer connections (JSON and "
+                "Protobuf, bi- and unidirectional, join/leave pushes) that decode what they receive, and injected "
                 "failures (OnSubscribe error or disconnect, Broker.Subscribe error, AddPresence error); a schedule = list "
                 "of gate releases; quick: random schedules + corpus + a few real-time wait-gate timeouts; thorough: all "
                 "schedules up to a depth for a template set (= crash-point enumeration of close) + random + timeouts; "
@@ -516,6 +594,7 @@ def run(ctx, prop):
         rng = ctx.rng
         ops += [gen_fast(rng) for _ in range(ctx.scale(450, 6000))]
         ops += [gen_connect(rng) for _ in range(ctx.scale(120, 3000))]
+        ops += [gen_mappres(rng) for _ in range(ctx.scale(100, 2500))]
         ops += [gen_slow(rng) for _ in range(ctx.scale(8, 150))]
         if ctx.thorough:
             for acts in enum_templates():
@@ -538,13 +617,13 @@ def run(ctx, prop):
     if getattr(ctx, "last_go_crash", None) and len(good) < len(cases) // 2:
         ctx.notes.append("go harness crashed: " + str(ctx.last_go_crash)[-400:])
     ctx.log(f"go harness done: {len(good)}/{len(cases)} usable traces")
-    modelled = [c for c in good if not c.spec.get("connect")]
+    modelled = [c for c in good if not outside_model(c.spec)]
     mres = ctx.lean_run(lean_lines(modelled), timeout=3000)
     if mres is None:
         proofs_ok = False
         mres = []
     by_op = {c.op: (mres[i] if i < len(mres) else "<missing>") for i, c in enumerate(modelled)}
-    model = [by_op.get(c.op, "accept jl= (connect scenario: outside the model)") for c in good]
+    model = [by_op.get(c.op, "accept jl= (scenario outside the model: oracle only)") for c in good]
     ctx.log("lean trace validation done")
     # bounded exploration of the model itself (supporting evidence, not a proof): every interleaving of the
     # listed operation sets; without timeouts no C04 / C05 violation, no broken invariant, no panic, no deadlock
@@ -566,7 +645,7 @@ def run(ctx, prop):
                               replay={"ops": [l], "model": [r[:2000]]}, no_input=True)
     for i, c in enumerate(good):
         m = model[i] if i < len(model) else ""
-        if m.startswith("accept") and not c.spec.get("connect"):
+        if m.startswith("accept") and not outside_model(c.spec):
             mm = re.search(r"jl=(\S*)", m)
             c.attributed = [x for x in (mm.group(1).split(",") if mm else []) if x]
     seen = set()
@@ -589,6 +668,10 @@ def run(ctx, prop):
             ctx.count("wait-gate-timeout")
         if c.spec.get("connect"):
             ctx.count("connect-time-subs")
+        if c.spec.get("obs"):
+            ctx.count("observer-connections")
+        if any(a.get("m") for a in c.spec["actors"]):
+            ctx.count("map-client-presence")
         ctx.count("settled:" + ("closed" if c.final["st"] == 3 else "open"))
         msg = oracle(c)
         m = model[i] if i < len(model) else "<missing>"
@@ -764,7 +847,7 @@ def shrink(ctx, binary, case, oracle, msg0):
     spec = case.spec
 
     def run1(actors, sched):
-        line = op(actors, spec["chans"], sched)
+        line = op(actors, spec["chans"], sched, connect=spec.get("connect"), obs=spec.get("obs", 0))
         out = ctx.go_run(binary, TEST, [line], timeout=600)
         c = Case(line, out[0] if out else "<missing>")
         return c
